@@ -5,6 +5,7 @@ import io
 import json
 import os
 import random
+import re
 import signal
 import sys
 
@@ -177,6 +178,66 @@ def impl_main(mode, files, cfg, limit_s=20.0, texts=None):
         signal.signal(signal.SIGVTALRM, old)
 
 
+def _passthrough_hits(n, key):
+    """Does Processor._get_nodes_by_key find `key` in n when it reaches n by traversing a list?"""
+    k = n["k"]
+    if k == "map":
+        return any(kk == key or str(kk) == key for kk, _v in n["e"])
+    if k == "seq":
+        return any(_passthrough_hits(x, key) for x in n["i"])
+    if k == "set":
+        return any(m == key or str(m) == key for m in n["m"])
+    return False
+
+
+def addr_is_plain(doc, addr):
+    """Is a rule/key path of key and index segments resolved against `doc` by the real Processor the way the model's
+    `resolve` does it (one child per segment, or no match)?  False when a segment is answered by one of the Processor's
+    other behaviours: a key segment that meets a list (bare-index reading, or the pass-through search of an array of
+    hashes, which may attach the rule to several nodes), a key segment that names a member of a set, an index segment on
+    a set (YAMLPathException), an integer-looking key.  Structural test on the document only; the real code is not asked."""
+    n = doc
+    for t, v in addr:
+        k = n["k"]
+        if t == "k":
+            if re.fullmatch(r"[-+]?[0-9_ ]+", str(v)):
+                return False
+            if k == "map":
+                nxt = [vv for kk, vv in n["e"] if kk == v]
+                if not nxt:
+                    return True
+                n = nxt[0]
+            elif k == "seq":
+                return not _passthrough_hits(n, v)
+            elif k == "set":
+                return not _passthrough_hits(n, v)
+            else:
+                return True
+        else:
+            if k == "seq":
+                if not (0 <= v < len(n["i"])):
+                    return v >= 0
+                n = n["i"][v]
+            elif k == "set":
+                return False
+            else:
+                return True
+    return True
+
+
+def rules_in_model(c):
+    """The configured rule and key paths are prepared against every document that serves as right-hand side of a
+    pairwise merge (under CONDENSE_ALL also the left-hand stream's documents).  The model resolves plain paths only."""
+    cfg = c["cfg"]
+    addrs = [a for a, _v in cfg.get("rules", [])] + [a for a, _v in cfg.get("keys", [])]
+    if not addrs:
+        return True
+    docs = list(c["rhs"]) + [d for f in c.get("files", [])[1:] for d in f]
+    if c["mode"] == "condense_all":
+        docs += list(c["lhs"]) + [d for f in c.get("files", [])[:1] for d in f]
+    return all(addr_is_plain(d, a) for d in docs for a in addrs)
+
+
 # candidate texts of files without a document; what each really holds is decided by the real loader
 BLANK_TEXTS = ["", "\n", "  \n\n", "# only a comment\n", "# first\n\n  # second\n", "\ufeff", "# no newline at the end",
                "---\n", "---", "--- # comment\n", "---\n...\n", "%YAML 1.2\n---\n", "# c\n---\n# d\n"]
@@ -247,6 +308,7 @@ def expected_count(mode, nl, nr):
 
 
 def judge(case, im, mo):
+    """mo None: the case's rule paths are outside the model — only the direct checks on the real code are made."""
     mode, L, R, cfg, how = case["mode"], case["lhs"], case["rhs"], case["cfg"], case["how"]
     desc = "%s of %s with %s under %s (%s)" % (mode, [c05._show(d) for d in L], [c05._show(d) for d in R],
                                                json.dumps(cfg, sort_keys=True), how)
@@ -255,10 +317,17 @@ def judge(case, im, mo):
             ("<no document: %r>" % t) if not f else ([c05._show(d) for d in f] if t is None else "<%r>" % t)
             for f, t in zip(case["files"], case["texts"])], json.dumps(cfg, sort_keys=True))
     out = []
-    if "oom" in im or mo.get("err") == "outOfModel":
+    if "oom" in im or (mo is not None and mo.get("err") == "outOfModel"):
         return None
     if "err" in im and im["err"] != "config":
         out.append(("violation", "%s@%s" % (im["err"], im.get("site", "?")), "%s raised %s at %s" % (desc, im["err"], im.get("site"))))
+        return out
+    if mo is None:
+        if "err" not in im and im["state"] == 0 and how != "main-multi":
+            n = len(im["docs"])
+            want_n = expected_count(mode, len(L), len(R))
+            if n != want_n:
+                out.append(("violation", "count:%s" % mode, "%s left %d documents; the mode and the stream lengths define %d" % (desc, n, want_n)))
         return out
     if "err" in im or "err" in mo:
         if im.get("err") != mo.get("err"):
@@ -331,6 +400,10 @@ def run_cases(cases):
             reqs.append({"op": "C18.docs", "mode": c["mode"], "lhs": c["lhs"], "rhs": c["rhs"], "cfg": mc})
         prepared.append(c)
     model = drv.ask(reqs)
+    # rule/key paths that the real Processor does not resolve segment by segment against some right-hand document
+    # (key pass-through into an array of hashes, set members, ...) are outside the model's `resolve`: the real code is
+    # still run and checked directly (exceptions, document count); the model's answer is not compared.
+    model = [mo if rules_in_model(c) else None for c, mo in zip(prepared, model)]
     findings, samples, hist = [], [], {}
     nontrivial = 0
     for c, mo in zip(prepared, model):
@@ -346,8 +419,12 @@ def run_cases(cases):
         st = "state:%s" % (im.get("state") if "state" in im else im.get("err", "oom"))
         hist[st] = hist.get(st, 0) + 1
         j = judge(c, im, mo)
-        if j is None:
+        if mo is None:
             stats["oom"] += 1
+            hist["rule_path_not_plain(direct checks only)"] = hist.get("rule_path_not_plain(direct checks only)", 0) + 1
+        elif j is None:
+            stats["oom"] += 1
+        if j is None:
             continue
         if j == "matrix-empty-first":
             hist["matrix_zero_document_first_file_crash_check_only"] = hist.get("matrix_zero_document_first_file_crash_check_only", 0) + 1
